@@ -123,7 +123,7 @@ type Result struct {
 	Panics        int               `json:"impl_panics"`
 	ViolClauses   map[string]int    `json:"violation_clauses"`
 	DisagreeOps   map[string]int    `json:"disagreement_ops"`
-	DisagreeProp  map[string]int    `json:"disagree_by_prop,omitempty"`
+	DisagreeProp  map[string]int    `json:"disagree_by_prop"`
 	WallS         float64           `json:"wall_s"`
 	Notes         []string          `json:"notes,omitempty"`
 	Extra         map[string]string `json:"extra,omitempty"`
@@ -295,6 +295,9 @@ func RunComponent(c *Component, tier string, seed uint64, driver string, corpus 
 		res.Scope = c.Scope(tier)
 	}
 	res.Exhaustive = c.Exhaustive
+	if c.Affects != nil {
+		res.DisagreeProp = map[string]int{}
+	}
 	rng := NewRNG(seed)
 	var cases []Case
 	cases = append(cases, corpus...)
